@@ -79,7 +79,10 @@ def run_pool(obs, seed, jobs=None):
             for r in _work((c, seed)):
                 results[r["idx"]] = r
         return results
-    with ctx.Pool(jobs, maxtasksperchild=1) as pool:
+    import gc
+    gc.collect()
+    gc.freeze()    # keep the parent's heap out of the children's collections (copy-on-write)
+    with ctx.Pool(jobs, maxtasksperchild=int(os.environ.get("VERIF_TASKS_PER_CHILD", "0")) or None) as pool:
         for rs in pool.imap_unordered(_work, [(c, seed) for c in chunks]):
             for r in rs:
                 results[r["idx"]] = r
@@ -180,6 +183,7 @@ def check_property(prop, tier, seed, modules, jobs=None, only=None, verbose=Fals
     undecided = []
     crashes = []
     known_hits = []
+    not_attempted = []
     canaries = 0
     for ob, r in zip(obs, results):
         if r is None:
@@ -233,7 +237,12 @@ def check_property(prop, tier, seed, modules, jobs=None, only=None, verbose=Fals
                     else:
                         violations.append((ob, r, r["concrete_fail"]["inputs"], rp.get("detail"), True))
                     continue
-            undecided.append(r)
+            if getattr(ob, "optional", False):
+                # seeded-random obligation the solvers could not decide: reported, not counted,
+                # and (after the concrete sampler found nothing) not a failure of the check
+                not_attempted.append(r)
+            else:
+                undecided.append(r)
         elif r["verdict"] == "refuted":
             rp = native_replay(r["ref"], r["inputs"])
             r["replay"] = rp
@@ -303,6 +312,6 @@ def check_property(prop, tier, seed, modules, jobs=None, only=None, verbose=Fals
     if crashes and code != EXIT_VIOLATION:
         code = EXIT_CRASH
     summary = {"obs": obs, "results": results, "violations": violations, "undecided": undecided,
-               "crashes": crashes, "known_hits": known_hits, "canaries": canaries,
+               "crashes": crashes, "known_hits": known_hits, "canaries": canaries, "not_attempted": not_attempted,
                "wall_s": time.time() - t0}
     return code, summary
